@@ -15,6 +15,8 @@ Fault kinds (decided per exchange by `fault_fn(index, apdu)`):
   timeout_after    device processed the APDU but the answer never arrives
   ("sw", w)        device answers with status word w instead of processing
   ("raw", data, w) device answers data||w instead of processing
+  ("wrongop", op)  device processes, answer has its opcode byte replaced
+  ("swdata", w)    device processes and answers normally but with status word w
 """
 from ledgerblue.ledgerWrapper import wrapCommandAPDU, unwrapResponseAPDU
 
@@ -153,6 +155,19 @@ class FakeHidDevice:
             link.device.on_injected(apdu, sw)
         else:
             r = link.device.exchange(apdu)
+            if isinstance(kind, tuple) and kind[0] == "wrongop" and r is not None:
+                # a well-formed answer of the right length with an unexpected opcode
+                link.stats.fault("wrongop")
+                d = bytearray(r[0])
+                if len(d) > 2:
+                    d[2] = kind[1]
+                if len(d) == 3:
+                    d.append(0x20)    # keep it well-formed for ops that carry a length
+                r = (bytes(d), r[1])
+            if isinstance(kind, tuple) and kind[0] == "swdata" and r is not None:
+                # status words ledgerblue does not treat as errors (9000/61xx/6Cxx)
+                link.stats.fault("swdata")
+                r = (r[0], kind[1])
             if r is None:
                 # device does not answer (e.g. it left the bus after EXIT)
                 how = link.device.silence_kind()
